@@ -38,3 +38,107 @@ contract(F, "ReverseRule.shifts", props=["C10"],
                   "rule_shifts(self.original_rule)[j] - rule_shifts(self.original_rule)[self.idx]))"],
          modifies=["self.original_rule._shifts"],
          notes="reverse rule children = (original parent, original children without idx)")
+
+# ------------------------------------------------------------------ C01: cache discipline and provider wiring
+from .common import TermsT
+klass(F, "ConstructorAny", fields={})
+REG.classes["AbstractRule"].fields.update({"subterms": Opt(Seq(Fun("terms"))), "terms_cache": List(TermsT),
+                                           "_constructor": Opt(Obj("ConstructorAny"))})
+REG.classes["Rule"].properties.append("constructor")
+
+
+def _ctor_of(ex, st, rule):
+    return Val(Obj("ConstructorAny"), z3.Function("ctor_of", z3.IntSort(), z3.IntSort())(rule.z))
+
+
+def _level(ex, st, ctor, n):
+    """The terms of size n the constructor computes from the rule's providers (deterministic given the providers)."""
+    return Val(TermsT, z3.Function("level_terms", z3.IntSort(), z3.IntSort(), TermsT.sort())(ctor.z, n.z))
+
+
+spec_fn("ctor_of", _ctor_of)
+spec_fn("level_terms", _level)
+
+contract(F, "Rule.constructor", props=["C01"], verify=False,
+         trusted_reason="memoised strategy.constructor(comb_class, children): deterministic (A2)",
+         params={"self": Obj("Rule")}, returns=Obj("ConstructorAny"), ensures=["result == ctor_of(self)"],
+         may_raise=["StrategyDoesNotApply"], modifies=["self._constructor"])
+contract("comb_spec_searcher/strategies/constructor/base.py", "ConstructorAny.get_terms", props=["C01"], verify=False,
+         source="Constructor.get_terms",
+         trusted_reason="the constructors' get_terms (verified per constructor under C09/C10); here only: the result "
+                        "is a function of the constructor, its providers and n",
+         params={"self": Obj("ConstructorAny"), "parent_terms": Fun("terms"), "subterms": Opt(Seq(Fun("terms"))), "n": Int},
+         returns=TermsT, ensures=["result == level_terms(self, n)"])
+
+_CACHE_EXT = ["len(self.terms_cache) >= old(len(self.terms_cache))",
+              "forall(lambda k: implies(0 <= k and k < old(len(self.terms_cache)), self.terms_cache[k] == old(self.terms_cache[k])))",
+              "forall(lambda k: implies(old(len(self.terms_cache)) <= k and k < len(self.terms_cache), "
+              "self.terms_cache[k] == level_terms(ctor_of(self), k)))"]
+
+contract(F, "Rule._ensure_level", props=["C01", "C10"],
+         params={"self": Obj("Rule"), "n": Int},
+         raises=[("RuntimeError", "is_none(self.subterms)")], may_raise=["StrategyDoesNotApply"],
+         ensures=["len(self.terms_cache) > n",
+                  "implies(n < old(len(self.terms_cache)), len(self.terms_cache) == old(len(self.terms_cache)))"] + _CACHE_EXT,
+         loops={0: dict(invariant=["len(self.terms_cache) >= at('loop0', len(self.terms_cache))",
+                                   "implies(n < at('loop0', len(self.terms_cache)), len(self.terms_cache) == at('loop0', len(self.terms_cache)))",
+                                   "forall(lambda k: implies(0 <= k and k < at('loop0', len(self.terms_cache)), "
+                                   "self.terms_cache[k] == at('loop0', self.terms_cache[k])))",
+                                   "forall(lambda k: implies(at('loop0', len(self.terms_cache)) <= k and k < len(self.terms_cache), "
+                                   "self.terms_cache[k] == level_terms(ctor_of(self), k)))"],
+                        modifies=["*self.terms_cache", "self._constructor"])},
+         modifies=["*self.terms_cache", "self._constructor"],
+         notes="level k is computed exactly once, as constructor.get_terms(.., k) with all smaller levels cached; a "
+               "request below the cached length touches nothing (self-reads of size < n are answered from the cache)")
+
+contract(F, "Rule.get_terms", source="AbstractRule.get_terms", props=["C01"],
+         params={"self": Obj("Rule"), "n": Int}, returns=TermsT, requires=["n >= 0"],
+         raises=[("RuntimeError", "is_none(self.subterms)")], may_raise=["StrategyDoesNotApply"],
+         ensures=["result == self.terms_cache[n]", "len(self.terms_cache) > n"] + _CACHE_EXT,
+         modifies=["*self.terms_cache", "self._constructor"])
+
+contract(F, "Rule.count_objects_of_size", source="AbstractRule.count_objects_of_size", props=["C01"],
+         params={"self": Obj("Rule"), "n": Int, "parameters": Dict(Str, Int)}, returns=Int,
+         requires=["n >= 0", "forall(lambda i: implies(0 <= i and i < len(self.comb_class.extra_parameters), "
+                             "self.comb_class.extra_parameters[i] in parameters))"],
+         raises=[("RuntimeError", "is_none(self.subterms)")], may_raise=["StrategyDoesNotApply"],
+         ensures=["result == self.terms_cache[n][tuple(parameters[k] for k in self.comb_class.extra_parameters)]"],
+         modifies=["*self.terms_cache", "self._constructor"],
+         notes="the count is looked up under the parameter values in the class's own declaration order")
+
+# set_subrecs: provider i belongs to child i
+provider("subrule", args=[CombClass], arg_names=["c"], returns=Obj("Rule"))
+REG.classes["AbstractRule"].fields.update({"subrecs": Opt(Seq(Fun("recs"))), "subsamplers": Opt(Seq(Fun("samplers"))),
+                                           "subobjects": Opt(Seq(Fun("objects")))})
+REG.classes["AbstractRule"].properties.append("children")
+
+
+def _children_of(ex, st, rule):
+    return Val(Seq(CombClass), z3.Function("children_of", z3.IntSort(), z3.SeqSort(CombClass.sort()))(rule.z))
+
+
+def _bm(name):
+    def f(ex, st, get_subrule, c):
+        sub = z3.Function("prov_subrule", z3.IntSort(), CombClass.sort(), z3.IntSort())(get_subrule.z, c.z)
+        return Val(Int, z3.Function(f"bm_{name}", z3.IntSort(), z3.IntSort())(sub))
+    return f
+
+
+spec_fn("children_of", _children_of)
+for _n in ("get_terms", "count_objects_of_size", "random_sample_object_of_size", "get_objects"):
+    spec_fn("bm_" + _n, _bm(_n))
+
+contract(F, "Rule.children", source="AbstractRule.children", props=["C01"], verify=False,
+         trusted_reason="memoised strategy.decomposition_function(comb_class): deterministic (A2)",
+         params={"self": Obj("Rule")}, returns=Seq(CombClass), ensures=["result == children_of(self)"],
+         may_raise=["StrategyDoesNotApply"], modifies=["self._children"])
+
+_WIRE = "forall(lambda i: implies(0 <= i and i < len(children_of(self)), val(self.{f})[i] == bm_{m}(get_subrule, children_of(self)[i])))"
+contract(F, "Rule.set_subrecs", source="AbstractRule.set_subrecs", props=["C01", "C07", "C08"],
+         params={"self": Obj("Rule"), "get_subrule": Fun("subrule")}, may_raise=["StrategyDoesNotApply"],
+         ensures=["not is_none(self.subterms) and len(val(self.subterms)) == len(children_of(self))",
+                  _WIRE.format(f="subterms", m="get_terms"), _WIRE.format(f="subrecs", m="count_objects_of_size"),
+                  _WIRE.format(f="subsamplers", m="random_sample_object_of_size"),
+                  _WIRE.format(f="subobjects", m="get_objects")],
+         modifies=["self.subterms", "self.subrecs", "self.subsamplers", "self.subobjects", "self._children"],
+         notes="the i-th provider of each kind is the corresponding method of the rule of the i-th child")
